@@ -39,9 +39,23 @@ def _memo_contract(qual, field, fresh_of, kind, ftype, loops=None, requires=None
             x = requires(a)
             r += x if isinstance(x, list) else [x]
         return r
+    # MemoInv over ALL four slots: each is None or holds its fresh value.  Besides "nothing memoised" and "this view memoised" the view
+    # is verified from the state "this view not memoised yet, every OTHER view is" (a body that takes a short cut through another
+    # slot - width from the memoised text, say - is executed there)
+    OTHERS = {"_len": (IntT(), lambda xs: T.TOTLEN(xs)), "_s": (StrT(plain=False), lambda xs: T.TEXT(xs)),
+              "_width": (IntT(), lambda xs: T.TOTW(xs)), "_unicode": (StrT(plain=False), lambda xs: STRFOLD(xs))}
+    others = {k: v for k, v in OTHERS.items() if k != field}
+
+    def req_others(a):
+        r = [getattr(a.self, k) == fr(a.self.chunks) for k, (_, fr) in others.items()]
+        if requires is not None:
+            x = requires(a)
+            r += x if isinstance(x, list) else [x]
+        return r
     c = Contract(M + "FmtStr." + qual + "#memo", "C13", ["self"], kind=kind,
                  shapes=[Shape("miss", dict(self=_fmt_obj()), requires=requires),
-                         Shape("hit", dict(self=_fmt_obj(**{field: ftype})), requires=both)],
+                         Shape("hit", dict(self=_fmt_obj(**{field: ftype})), requires=both),
+                         Shape("miss_others_memoised", dict(self=_fmt_obj(**{k: t for k, (t, _) in others.items()})), requires=req_others)],
                  ensures=ens, result=None, loops=loops or {})
     return c
 
